@@ -46,6 +46,13 @@ pub fn bodies(full: bool) -> Vec<E> {
         out.push(E::App(None, "f".into(), vec![u.clone()]));
         out.push(E::Rec("a".into(), Box::new(obj(vec![prop("k", arr(u.clone()))]))));
     }
+    // two-argument applications: a later argument may be named like an earlier parameter
+    for u1 in us.iter().take(3) {
+        for u2 in us.iter().take(3) {
+            out.push(E::App(None, "f".into(), vec![u1.clone(), u2.clone()]));
+            out.push(E::App(None, "g".into(), vec![u1.clone(), u2.clone()]));
+        }
+    }
     if full {
         for u in us.iter().take(3) {
             out.push(E::App(None, "g".into(), vec![u.clone()]));
@@ -64,6 +71,7 @@ pub fn heads(full: bool) -> Vec<(&'static str, Vec<&'static str>)> {
         ("f", vec!["x"]),
         ("f", vec!["a"]),
         ("f", vec!["x", "a"]),
+        ("g", vec!["a", "x"]),
     ];
     if full {
         v.push(("x", vec![]));
@@ -79,6 +87,7 @@ fn finals() -> Vec<E> {
         obj(vec![prop("r", var("a")), prop("s", var("b"))]),
         E::App(None, "f".into(), vec![num()]),
         obj(vec![prop("r", E::App(None, "f".into(), vec![E::Prim(Prim::Str)])), prop("s", qvar("m", "a"))]),
+        E::App(None, "f".into(), vec![num(), E::Prim(Prim::Str)]),
     ]
 }
 
